@@ -366,6 +366,8 @@ func propC17(w *World, r *Report) {
 	ef := &errflow{w: w, r: r}
 	ef.computeIOErr()
 	ef.RunErrDrop(methods)
+	RunShortRead(w, r, w.LibFuncs())
+	r.Floor("shortread", 1)
 	r.Floor("whomaywrite", 20)
 	r.Floor("errnodata", 5)
 	r.Floor("viareadbytes", 5)
